@@ -29,7 +29,37 @@ def apply_history(rng, h, f, steps=None):
     import hvsrpy
     hist = []
     for _ in range(int(steps if steps is not None else rng.integers(0, 5))):
-        op = rng.integers(0, 5)
+        op = rng.integers(0, 6)
+        if op == 5:
+            # a time-domain rejection with the object attached (the library's own way of installing a selection).  Only when every window has a peak, so that the
+            # state stays well formed (the ill-formed state is known finding F-9, exercised in its own clause).  The selection expected is the one the
+            # function itself reports through the recordings it returns; the masks must *be* that selection, as booleans.
+            from bounded import refproc as rp
+            k = len(h.valid_window_boolean_mask)
+            if np.isnan(h._main_peak_frq).any() or k < 5:
+                continue
+            recs = []
+            for w in range(k):
+                ns, ew, vt, dt_ = rp.gen_window(rng, N=400, dt=0.01)[:4]
+                if rng.random() < 0.35:
+                    for c in (ns, ew, vt):
+                        c[180:200] *= 60.0           # a burst: the STA/LTA ratio and the peak amplitude of this window stand out
+                recs.append(rp.mk_record(ns, ew, vt, dt_))
+            if rng.random() < 0.5:
+                kept = hvsrpy.sta_lta_window_rejection(recs, sta_seconds=0.2, lta_seconds=2, min_sta_lta_ratio=0.1, max_sta_lta_ratio=4.0, hvsr=h)
+                name = "sta-lta"
+            else:
+                kept = hvsrpy.maximum_value_window_rejection(recs, maximum_value_threshold=0.5, normalized=True, hvsr=h)
+                name = "maximum-value"
+            sel = np.array([any(r is q for q in kept) for r in recs])
+            if sel.sum() < 3:
+                # too few windows left for statistics: put a well-formed selection back
+                h.valid_window_boolean_mask = np.ones(k, dtype=bool)
+                h.valid_peak_boolean_mask = np.ones(k, dtype=bool)
+                continue
+            hist.append((name, sel.astype(int).tolist()))
+            h._expected_selection = sel
+            continue
         if op == 0:
             lo = None if rng.random() < 0.4 else float(rng.uniform(0.2, 2))
             hi = None if rng.random() < 0.4 else float(rng.uniform(3, 20))
@@ -76,7 +106,16 @@ def apply_history(rng, h, f, steps=None):
 
 
 def check_stats(cl, h, f, A, fn, hist):
-    vw, vp = h.valid_window_boolean_mask.copy(), h.valid_peak_boolean_mask.copy()
+    # the accepted windows: where the mask is True.  The masks are read as truth values here, whatever array type they have - a statistic that takes an
+    # integer 0/1 mask for a list of positions is computed from other windows
+    vw, vp = np.asarray(h.valid_window_boolean_mask).astype(bool), np.asarray(h.valid_peak_boolean_mask).astype(bool)
+    if hist and hist[-1][0] in ("sta-lta", "maximum-value"):
+        sel = np.array(hist[-1][1], dtype=bool)
+        if not (np.array_equal(vw, sel) and np.array_equal(vp, sel)):
+            cl.fail("hvsrpy.window_rejection." + ("sta_lta_window_rejection" if hist[-1][0] == "sta-lta" else "maximum_value_window_rejection"),
+                    f"after the rejection the masks of the attached object are not the selection returned (windows {vw.astype(int).tolist()}, peaks {vp.astype(int).tolist()}, "
+                    f"selection {sel.astype(int).tolist()})", signature="stat:masks-after-time-domain", history=hist)
+            return False
     pf, pa = h._main_peak_frq[vp], h._main_peak_amp[vp]
     rows = A[vw]
     snap = (h.amplitude.copy(), vw.copy(), vp.copy(), h._main_peak_frq.copy(), h._main_peak_amp.copy())
